@@ -56,6 +56,35 @@ CHECKS = {
     ),
 }
 
+CHECKS.update(
+    {
+        'C04': dict(
+            category='exploration',
+            technique='runtime monitor of the idle state (que/view_todo/view_doing/crew vs ledger), runnable-set oracle before every dispatch, bounded-round drain to quiescence',
+            text=(
+                'Random histories followed by a drain phase on the real scheduler/farm. Liveness is decided in its '
+                'bounded form: whenever the ledger shows nothing pending/queued/in flight all four idle views must be '
+                'empty; every pending unit whose reference ancestors are idle must be released by the next dispatch; '
+                'the drain must reach idle within a bound computed from the graph. Exploration of histories is the '
+                'reachable level for an all-orders liveness statement.'
+            ),
+            design='DESIGN.md §2 C04',
+            note=TRUST + SIM + ' Unbounded "eventually" is replaced by the bounded forms stated; workers always answer.',
+        ),
+        'C05': dict(
+            category='exploration',
+            technique='runtime frame-condition monitor: snapshot of every node (todo, doing, do) before/after each non-success Hand._res vs reference descendant set, plus journal check',
+            text=(
+                'Histories with 30-60% failure/invalid outcomes; around each failing reply the complete scheduler '
+                'state is snapshotted and compared with the frame computed from the reference graph (withdrawn from '
+                'descendants, nothing else changed, nothing added, no organize/update call, exactly one journal entry).'
+            ),
+            design='DESIGN.md §2 C05',
+            note=TRUST + SIM + " The executing set of dependents and X's own re-request are observed, not judged (the property does not state them).",
+        ),
+    }
+)
+
 NOT_YET = {}
 
 
